@@ -204,9 +204,7 @@ def bitName (names : List Text) (bits : List Nat) (k : Nat) : Res Text :=
     | some nm => .ok nm
 
 def paramOf (argNames : List String) (params : List (Param F)) (field : String) : Option (Param F) :=
-  match argNames.idxOf? field with
-  | none => none
-  | some i => params[i]?
+  ((argNames.zip params).find? (fun ap => ap.1 == field)).map (·.2)
 
 def formatArg (N : Num F) (names : List Text) (argNames : List String) (params : List (Param F))
     (bits : List Nat) : CQArg → Res Text
